@@ -55,6 +55,10 @@ Explain(full) ==
       [] Ev.op = "insert" ->
             /\ InsertS(Ev.d, Ev.p, Ev.b) /\ uid' = Ev.post.uid /\ UPart(full, InsertU(Ev.d, Ev.p, Ev.b))
             /\ Ev.ret = nextRef /\ PostMatches
+      [] Ev.op = "insert_collide" ->
+            /\ InsertCollideS(Ev.d, Ev.p, Ev.b, Ev.k, Ev.c) /\ uid' = Ev.post.uid
+            /\ UPart(full, InsertCollideU(Ev.d, Ev.p, Ev.b, Ev.k))
+            /\ Ev.outcome = "panic" /\ PostMatches
       [] Ev.op = "destroy" ->
             /\ DestroyS(Ev.d, Ev.r) /\ uid' = Ev.post.uid /\ UPart(full, DestroyU(Ev.d, Ev.r)) /\ PostMatches
       [] Ev.op = "transfer" ->
